@@ -186,7 +186,13 @@ fn module_item(rng: &mut Rng, out: &mut String) {
             out.push_str(&format!("      assign {} = {};\n", ident(rng), expr(rng, 1)));
             out.push_str("    end\n  endgenerate\n");
         }
-        12 => out.push_str(&format!("  typedef enum logic [1:0] {{S0, S1, S2}} st{}_t;\n", rng.below(10))),
+        12 => match rng.below(5) {
+            0 => out.push_str(&format!("  sub u{} ({}, {});\n", rng.below(10), ident(rng), ident(rng))),
+            1 => out.push_str(&format!("  prim ({}, {});\n", ident(rng), ident(rng))),
+            2 => out.push_str(&format!("  prim #{} ({}, {}, {});\n", 1 + rng.below(9), ident(rng), ident(rng), ident(rng))),
+            3 => out.push_str(&format!("  and g{} ({}, {}, {});\n", rng.below(10), ident(rng), ident(rng), ident(rng))),
+            _ => out.push_str(&format!("  typedef enum logic [1:0] {{S0, S1, S2}} st{}_t;\n", rng.below(10))),
+        },
         _ => {
             out.push_str(&format!("  task t{}(input int v);\n", rng.below(10)));
             statement(rng, 1, out, 4);
@@ -214,6 +220,7 @@ pub fn sv_program(rng: &mut Rng, items: usize) -> String {
             }
             _ => {
                 let name = format!("m{}", rng.below(100));
+                let mut late_ports = false;
                 match rng.below(4) {
                     0 | 1 => out.push_str(&format!(
                         "module {} #(parameter W = {}) (input logic clk, input rst_n, output logic [W-1:0] q);\n",
@@ -221,17 +228,21 @@ pub fn sv_program(rng: &mut Rng, items: usize) -> String {
                         number(rng)
                     )),
                     2 => {
-                        // non-ANSI header: the ANSI alternative is tried first and fails late
-                        out.push_str(&format!(
-                            "module {} #(parameter A = {}, parameter B = 2) (clk, rst_n, q);\n  input clk, rst_n;\n  output [7:0] q;\n",
-                            name,
-                            number(rng)
-                        ));
+                        // non-ANSI header: the ANSI alternative is tried first and fails late - at the port
+                        // declarations, which may come right after the header or only after the items
+                        late_ports = rng.coin();
+                        out.push_str(&format!("module {} #(parameter A = {}, parameter B = 2) (clk, rst_n, q);\n", name, number(rng)));
+                        if !late_ports {
+                            out.push_str("  input clk, rst_n;\n  output [7:0] q;\n");
+                        }
                     }
                     _ => out.push_str(&format!("module {};\n", name)),
                 }
                 for _ in 0..items {
                     module_item(rng, &mut out);
+                }
+                if late_ports {
+                    out.push_str("  input clk, rst_n;\n  output [7:0] q;\n");
                 }
                 out.push_str(&format!("endmodule{}\n", if rng.coin() { format!(" : {}", name) } else { String::new() }));
             }
@@ -244,6 +255,17 @@ pub fn sv_program(rng: &mut Rng, items: usize) -> String {
 }
 
 pub fn lib_program(rng: &mut Rng) -> String {
+    let out = lib_program_plain(rng);
+    if rng.chance(1, 3) {
+        // any white space may precede a separator
+        let ws = *rng.pick(&["\n", "\t", "  ", "\r\n", " /* c */ "]);
+        let sep = *rng.pick(&[";", ",", " -incdir"]);
+        return out.replacen(sep, &format!("{}{}", ws, sep), 1 + rng.usize_below(3));
+    }
+    out
+}
+
+fn lib_program_plain(rng: &mut Rng) -> String {
     let mut out = String::new();
     for i in 0..1 + rng.below(4) {
         match rng.below(10) {
@@ -261,8 +283,8 @@ pub fn lib_program(rng: &mut Rng) -> String {
             7 => out.push_str(&format!("// map {}\n/* block */ library l{} a.v ; ;\n", i, i)),
             8 => out.push_str(&format!("include \"other{}.map\";\nlibrary \\esc{}  x.v;\n", i, i)),
             9 => out.push_str(&format!("`define LIBDIR{} ./gen\nlibrary gen{} `LIBDIR{}/x.v;\n", i, i, i)),
-            0 => out.push_str(&format!("library lib{} a{}.v, b/*.v;\n", i, rng.below(9))),
-            1 => out.push_str(&format!("library rtl{} ./src/*.sv -incdir ./inc;\n", i)),
+            0 => out.push_str(&format!("library lib{} a{}.v, b/x*.v;\n", i, rng.below(9))),
+            1 => out.push_str(&format!("library rtl{} ./src/f*.sv -incdir ./inc;\n", i)),
             2 => out.push_str(&format!("include other{}.map;\n", i)),
             _ => out.push_str(&format!(
                 "config cfg{};\n  design lib{}.top;\n  default liblist lib{};\nendconfig\n",
@@ -337,6 +359,14 @@ pub fn sensitive_probe(rng: &mut Rng) -> String {
             1 => format!("`ifndef {}\nwire c;\n`endif\nmodule m; endmodule\n", kw),
             2 => format!("`undef {}\nmodule m; endmodule\n", kw),
             _ => format!("`ifdef X\n`elsif {}\n`endif\nmodule m; endmodule\n", kw),
+        };
+    }
+    if rng.chance(1, 8) {
+        // PEG-ambiguous: which alternative wins must not depend on anything but the text
+        return match rng.below(3) {
+            0 => "module top(a, b);\n  wire w;\nendmodule\n".into(),
+            1 => "module top(a, b, c);\nendmodule\n".into(),
+            _ => "module top(a);\n  assign a = 1;\nendmodule\n".into(),
         };
     }
     match rng.below(6) {
@@ -759,7 +789,13 @@ pub fn inject_directives(rng: &mut Rng, text: &str) -> String {
             2 => ins.push((p, " `end_keywords ".to_string())),
             3 => ins.push((p, " `timescale 1ns/1ps ".to_string())),
             4 => ins.push((p, " `default_nettype none ".to_string())),
-            5 => ins.push((p, " /* c */ ".to_string())),
+            5 => {
+                if rng.coin() {
+                    ins.push((p, " /* c */ ".to_string()))
+                } else {
+                    ins.push((p, format!("\n{}", pragma_lines(rng))))
+                }
+            }
             _ => ins.push((p, "\n`line 7 \"x.v\" 0\n".to_string())),
         }
     }
@@ -835,5 +871,111 @@ pub fn punct_edit(rng: &mut Rng, text: &str) -> String {
         }
         _ => {}
     }
+    out
+}
+
+
+/// a large text (several thousand memo entries): repeats of a small module
+pub fn big_text(rng: &mut Rng) -> String {
+    let n = 60 + rng.usize_below(400);
+    let mut out = String::with_capacity(n * 160);
+    for i in 0..n {
+        out.push_str(&format!("module big{}(input logic clk, output logic [7:0] q);\n  logic [7:0] r{};\n  always_ff @(posedge clk) r{} <= r{} + 8'd1;\n  assign q = r{};\nendmodule\n", i, i, i, i, i));
+    }
+    out
+}
+
+/// a probe whose tree is known to differ between memo capacities at and above the declared 1024 (the
+/// listed keyword-directive finding): anything that lets the capacity depend on the past shows here
+pub fn capacity_sensitive_probe(rng: &mut Rng) -> String {
+    let n = 20 + rng.usize_below(60);
+    let mut out = String::from("module m(a);\n`begin_keywords \"1364-2001\"\n");
+    for i in 0..n {
+        out.push_str(&format!("  wire w{};\n", i));
+    }
+    out.push_str("  input a;\n`end_keywords\n  wire logic;\nendmodule\n");
+    out
+}
+
+
+/// the repo's module-item snippets are wrapped in `module m; ... endmodule`; this variant wraps them in a
+/// non-ANSI module whose port declaration FOLLOWS the items: the ANSI alternative parses all items, fails
+/// at the declaration, and the non-ANSI alternative parses them again (replaying or recomputing memo entries)
+pub fn rewrap_nonansi(text: &str) -> String {
+    if let Some(body) = text.strip_prefix("module m;\n") {
+        if let Some(i) = body.rfind("endmodule") {
+            return format!("module m(zz_p);\n{}  input zz_p;\n{}", &body[..i], &body[i..]);
+        }
+    }
+    text.to_string()
+}
+
+/// `pragma with its expression list broken over lines in every way
+pub fn pragma_lines(rng: &mut Rng) -> String {
+    let name = *rng.pick(&["protect", "foo", "translate_off", "reset"]);
+    let parts: Vec<&str> = match rng.below(5) {
+        0 => vec!["key_keyname", "=", "\"F\""],
+        1 => vec!["a", ",", "b", ",", "begin"],
+        2 => vec!["k", "=", "(", "x", ",", "y", "=", "2", ")"],
+        3 => vec!["encoding", "=", "(", "enctype", "=", "\"raw\"", ")", ",", "data_block"],
+        _ => vec![],
+    };
+    let mut out = format!("`pragma {}", name);
+    for p in parts {
+        out.push_str(match rng.below(4) {
+            0 => "\n",
+            1 => "\n  ",
+            _ => " ",
+        });
+        out.push_str(p);
+    }
+    out.push('\n');
+    out
+}
+
+
+/// a structural netlist: module, UDP and gate instantiations in every naming / delay / strength form,
+/// under an ANSI header or a non-ANSI header whose port declarations come before or after the items
+pub fn netlist_program(rng: &mut Rng) -> String {
+    let mut out = String::new();
+    let style = rng.below(3);
+    match style {
+        0 => out.push_str("module top (input a, input b, output y);\n"),
+        _ => out.push_str("module top (a, b, y);\n"),
+    }
+    if style == 1 {
+        out.push_str("  input a, b;\n  output y;\n");
+    }
+    let n = 2 + rng.below(6);
+    // typical netlist shape: named instances with ordered ports first, primitives among them later
+    let lead_named = rng.coin();
+    let force_prim = if rng.coin() { 1 + rng.below(n - 1) } else { u64::MAX };
+    for i in 0..n {
+        let (x, y, z) = (ident(rng), ident(rng), ident(rng));
+        let kind = if i == 0 && lead_named {
+            0
+        } else if i == force_prim {
+            3 + rng.below(2)
+        } else {
+            rng.below(12)
+        };
+        match kind {
+            0 | 1 => out.push_str(&format!("  sub u{} ({}, {});\n", i, x, y)),
+            2 => out.push_str(&format!("  sub u{} ({}, {}, {});\n", i, x, y, z)),
+            3 => out.push_str(&format!("  prim ({}, {}, {});\n", x, y, z)),
+            4 => out.push_str(&format!("  prim #{} p{} ({}, {}, {});\n", 1 + rng.below(9), i, x, y, z)),
+            5 => out.push_str(&format!("  prim #({}, {}) ({}, {});\n", 1 + rng.below(5), 1 + rng.below(5), x, y)),
+            6 => out.push_str(&format!("  and g{} ({}, {}, {});\n", i, x, y, z)),
+            7 => out.push_str(&format!("  nand (strong0, weak1) #{} ({}, {}, {});\n", 1 + rng.below(4), x, y, z)),
+            8 => out.push_str(&format!("  sub #(.W({})) u{} (.p({}), .q({}));\n", number(rng), i, x, y)),
+            9 => out.push_str(&format!("  wire w{}, v{};\n  assign w{} = {} & {};\n", i, i, i, x, y)),
+            10 => out.push_str(&format!("  sub u{} [3:0] ({}, {});\n", i, x, y)),
+            _ => out.push_str(&format!("  bufif1 b{} ({}, {}, {});\n", i, x, y, z)),
+        }
+    }
+    if style == 2 {
+        out.push_str("  input a, b;\n  output y;\n");
+    }
+    out.push_str("endmodule\n");
     out
 }
